@@ -40,116 +40,113 @@ def matchesArgs (xs : List String) (ys : List String) : Bool :=
 def scopesAllowed (cfg : Config) (client : Client) (scopes : List String) : Bool :=
   scopes.all (fun s => cfg.scopeStrategy.run (client.scopes.map String.toList) s.toList)
 
-/-- `NewAuthorizeResponse` for a request of client `client` (already looked up and validated by
-    `NewAuthorizeRequest`). -/
-def authorizeProg (cfg : Config) (now : Time) (minNonce : Nat) (client : Client) (q : AuthzReq) : Prog Out := do
-  let id ← call .newId
-  let rid := match id with | .nat n => n | _ => 0
-  let rt := q.responseTypes
-  let base : Req := { id := rid, client := client, requestedAt := now,
-                      reqScopes := appendAllUniq [] q.scopes, reqAud := appendAllUniq [] q.aud,
-                      grantedScopes := appendAllUniq [] q.grantScopes, grantedAud := appendAllUniq [] q.grantAud,
-                      form := q.form, sess := { subject := q.subject } }
-  -- (1) AuthorizeExplicitGrantHandler
-  let step1 : Prog (Except Err (Req × Option Nat)) :=
-    if exactOne rt "code" then do
-      if !q.redirectSecure then return .error .invalid_request
-      if !scopesAllowed cfg client base.reqScopes then return .error .invalid_scope
-      match audienceMatch cfg.audStrategy client.audience base.reqAud with
-      | some e => return .error e
-      | none =>
-        let ar := { base with sess := { base.sess with expCode := some (addDur now cfg.codeLife) } }
-        match ← call (.createCode (ar.sanitize ["code", "redirect_uri"])) with
-        | .nat c => return .ok (ar, some c)
-        | _ => return .error .server_error
-    else return .ok (base, none)
-  match ← step1 with
-  | .error e => return .err e
-  | .ok (ar1, code1) =>
-  -- (2) AuthorizeImplicitGrantTypeHandler
-  let step2 : Prog (Except Err (Req × Option Nat)) :=
-    if exactOne rt "token" then do
-      if !client.grants.contains "implicit" then return .error .invalid_grant
-      if !scopesAllowed cfg client ar1.reqScopes then return .error .invalid_scope
-      match audienceMatch cfg.audStrategy client.audience ar1.reqAud with
-      | some e => return .error e
-      | none =>
-        let ar := { ar1 with sess := { ar1.sess with expAccess :=
-          match ar1.sess.expAccess with | some e => some e | none => some (roundSecond (addDur now cfg.atLife)) } }
-        match ← call (.createAccess (ar.sanitize [])) with
-        | .nat a => return .ok (ar, some a)
-        | _ => return .error .server_error
-    else return .ok (ar1, none)
-  match ← step2 with
-  | .error e => return .err e
-  | .ok (ar2, at2) =>
-  -- (3) OpenIDConnectExplicitHandler
-  let step3 : Prog (Option Err) :=
-    if ar2.grantedScopes.contains "openid" && exactOne rt "code" then do
-      match code1 with
-      | none => return some .misconfiguration
-      | some c =>
-        if q.redirect == "" then return some .invalid_request
-        if q.subject == "" then return some .server_error      -- ValidatePrompt: session subject
-        match (← call (.createOIDC c (ar2.sanitize oidcParameters))).errKind with
-        | some _ => return some .server_error
-        | none => return none
-    else return none
-  match ← step3 with
-  | some e => return .err e
-  | none =>
-  -- (4) OpenIDConnectImplicitHandler: `id_token` / `id_token token` — not driven by the history
-  --     driver (no code, nothing a later operation refers to); refused here so a generator slip shows.
-  if matchesArgs rt ["id_token"] || matchesArgs rt ["token", "id_token"] then return .err .unsupported_response_type
-  -- (5) OpenIDConnectHybridHandler
-  let isHybrid := rt.length ≥ 2 &&
+/-- what the handlers have produced so far -/
+structure AuthzAcc where
+  ar : Req
+  code : Option Nat := none
+  atk : Option Nat := none
+  idt : Bool := false
+
+def stampAccessIfUnset (cfg : Config) (now : Time) (s : Sess) : Sess :=
+  { s with expAccess := match s.expAccess with
+      | some e => some e
+      | none => some (roundSecond (addDur now cfg.atLife)) }
+
+/-- (1) `AuthorizeExplicitGrantHandler.HandleAuthorizeEndpointRequest` -/
+def authzExplicit (cfg : Config) (now : Time) (client : Client) (q : AuthzReq) (acc : AuthzAcc) : HP AuthzAcc := do
+  if !exactOne q.responseTypes "code" then return acc
+  HP.guard q.redirectSecure .invalid_request
+  HP.guard (scopesAllowed cfg client acc.ar.reqScopes) .invalid_scope
+  optErr (audienceMatch cfg.audStrategy client.audience acc.ar.reqAud)
+  let ar := { acc.ar with sess := { acc.ar.sess with expCode := some (addDur now cfg.codeLife) } }
+  let c ← expectNat (.createCode (ar.sanitize ["code", "redirect_uri"])) (fun _ => retErr .server_error)
+  return { acc with ar := ar, code := some c }
+
+/-- (2) `AuthorizeImplicitGrantTypeHandler` -/
+def authzImplicit (cfg : Config) (now : Time) (client : Client) (q : AuthzReq) (acc : AuthzAcc) : HP AuthzAcc := do
+  if !exactOne q.responseTypes "token" then return acc
+  HP.guard (client.grants.contains "implicit") .invalid_grant
+  HP.guard (scopesAllowed cfg client acc.ar.reqScopes) .invalid_scope
+  optErr (audienceMatch cfg.audStrategy client.audience acc.ar.reqAud)
+  let ar := { acc.ar with sess := stampAccessIfUnset cfg now acc.ar.sess }
+  let a ← expectNat (.createAccess (ar.sanitize [])) (fun _ => retErr .server_error)
+  return { acc with ar := ar, atk := some a }
+
+/-- (3) `OpenIDConnectExplicitHandler.HandleAuthorizeEndpointRequest` -/
+def authzOIDCExplicit (q : AuthzReq) (acc : AuthzAcc) : HP AuthzAcc := do
+  if !(acc.ar.grantedScopes.contains "openid" && exactOne q.responseTypes "code") then return acc
+  match acc.code with
+  | none => HP.fail .misconfiguration
+  | some c =>
+    HP.guard (q.redirect != "") .invalid_request
+    HP.guard (q.subject != "") .server_error      -- ValidatePrompt: session subject
+    expectOk (.createOIDC c (acc.ar.sanitize oidcParameters)) (fun _ => retErr .server_error)
+    return acc
+
+def isHybrid (rt : List String) : Bool :=
+  rt.length ≥ 2 &&
     (matchesArgs rt ["token", "id_token", "code"] || matchesArgs rt ["token", "code"] || matchesArgs rt ["id_token", "code"])
-  let step5 : Prog (Except Err (Req × Option Nat × Option Nat × Bool)) :=
-    if isHybrid then do
-      if q.nonce.length == 0 && rt.contains "id_token" then return .error .invalid_request
-      if q.nonce.length > 0 && q.nonce.length < minNonce then return .error .insufficient_entropy
-      if q.redirect == "" then return .error .invalid_request
-      if q.subject == "" then return .error .server_error       -- ValidatePrompt: session subject
-      if !scopesAllowed cfg client ar2.reqScopes then return .error .invalid_scope
-      -- code part
-      if !client.grants.contains "authorization_code" then return .error .invalid_grant
-      let arc := { ar2 with sess := { ar2.sess with expCode := some (roundSecond (addDur now cfg.codeLife)) } }
-      match ← call (.createCode (arc.sanitize ["code", "redirect_uri"])) with
-      | .nat c =>
-        let oidcErr : Prog (Option Err) :=
-          if arc.grantedScopes.contains "openid" then do
-            match (← call (.createOIDC c (arc.sanitize oidcParameters))).errKind with
-            | some _ => return some .server_error
-            | none => return none
-          else return none
-        match ← oidcErr with
-        | some e => return .error e
-        | none =>
-          if rt.contains "token" then
-            if !client.grants.contains "implicit" then return .error .invalid_grant
-            let art := { arc with sess := { arc.sess with expAccess :=
-              match arc.sess.expAccess with | some e => some e | none => some (roundSecond (addDur now cfg.atLife)) } }
-            match ← call (.createAccess (art.sanitize [])) with
-            | .nat a => return .ok (art, some c, some a, art.grantedScopes.contains "openid" && rt.contains "id_token")
-            | _ => return .error .server_error
-          else return .ok (arc, some c, none, arc.grantedScopes.contains "openid" && rt.contains "id_token")
-      | _ => return .error .server_error
-    else return .ok (ar2, code1, at2, false)
-  match ← step5 with
-  | .error e => return .err e
-  | .ok (ar5, code5, at5, idt) =>
-  -- (6) pkce.Handler.HandleAuthorizeEndpointRequest
-  if rt.contains "code" then
-    match pkceValidate cfg q.challenge q.method client.isPublic with
-    | some e => return .err e
-    | none =>
-      if q.challenge == "" && q.method == "" then return .authz code5 at5 idt
-      else match code5 with
-        | none => return .err .server_error
-        | some c =>
-          match (← call (.createPKCE c (ar5.sanitize ["code_challenge", "code_challenge_method"]))).errKind with
-          | some _ => return .err .server_error
-          | none => return .authz code5 at5 idt
-  else return .authz code5 at5 idt
+
+/-- (5) `OpenIDConnectHybridHandler` -/
+def authzHybrid (cfg : Config) (now : Time) (minNonce : Nat) (client : Client) (q : AuthzReq) (acc : AuthzAcc) : HP AuthzAcc := do
+  let rt := q.responseTypes
+  if !isHybrid rt then return acc
+  HP.guard (!(q.nonce.length == 0 && rt.contains "id_token")) .invalid_request
+  HP.guard (!(q.nonce.length > 0 && q.nonce.length < minNonce)) .insufficient_entropy
+  HP.guard (q.redirect != "") .invalid_request
+  HP.guard (q.subject != "") .server_error       -- ValidatePrompt: session subject
+  HP.guard (scopesAllowed cfg client acc.ar.reqScopes) .invalid_scope
+  -- `code`
+  HP.guard (client.grants.contains "authorization_code") .invalid_grant
+  let arc := { acc.ar with sess := { acc.ar.sess with expCode := some (roundSecond (addDur now cfg.codeLife)) } }
+  let c ← expectNat (.createCode (arc.sanitize ["code", "redirect_uri"])) (fun _ => retErr .server_error)
+  if arc.grantedScopes.contains "openid" then
+    expectOk (.createOIDC c (arc.sanitize oidcParameters)) (fun _ => retErr .server_error)
+  let idt := arc.grantedScopes.contains "openid" && rt.contains "id_token"
+  -- `token`
+  if rt.contains "token" then
+    HP.guard (client.grants.contains "implicit") .invalid_grant
+    let art := { arc with sess := stampAccessIfUnset cfg now arc.sess }
+    let a ← expectNat (.createAccess (art.sanitize [])) (fun _ => retErr .server_error)
+    return { ar := art, code := some c, atk := some a, idt := idt }
+  else
+    return { ar := arc, code := some c, atk := acc.atk, idt := idt }
+
+/-- (6) `pkce.Handler.HandleAuthorizeEndpointRequest` -/
+def authzPKCE (cfg : Config) (client : Client) (q : AuthzReq) (acc : AuthzAcc) : HP AuthzAcc := do
+  if !q.responseTypes.contains "code" then return acc
+  optErr (pkceValidate cfg q.challenge q.method client.isPublic)
+  if q.challenge == "" && q.method == "" then return acc
+  match acc.code with
+  | none => HP.fail .server_error
+  | some c =>
+    expectOk (.createPKCE c (acc.ar.sanitize ["code_challenge", "code_challenge_method"])) (fun _ => retErr .server_error)
+    return acc
+
+def authzBaseReq (now : Time) (client : Client) (q : AuthzReq) (rid : Nat) : Req :=
+  { id := rid, client := client, requestedAt := now,
+    reqScopes := appendAllUniq [] q.scopes, reqAud := appendAllUniq [] q.aud,
+    grantedScopes := appendAllUniq [] q.grantScopes, grantedAud := appendAllUniq [] q.grantAud,
+    form := q.form, sess := { subject := q.subject } }
+
+/-- `NewAuthorizeRequest` (client lookup, scope and audience checks) + `NewAuthorizeResponse` -/
+def authorizeH (cfg : Config) (now : Time) (minNonce : Nat) (q : AuthzReq) : HP Out := do
+  let client ← expectClient (.getClient q.clientId) .invalid_client
+  HP.guard (scopesAllowed cfg client (appendAllUniq [] q.scopes)) .invalid_scope
+  optErr (audienceMatch cfg.audStrategy client.audience q.aud)
+  let rid ← expectNat .newId (fun _ => retErr .server_error)
+  let acc0 : AuthzAcc := { ar := authzBaseReq now client q rid }
+  let acc1 ← authzExplicit cfg now client q acc0
+  let acc2 ← authzImplicit cfg now client q acc1
+  let acc3 ← authzOIDCExplicit q acc2
+  -- (4) OpenIDConnectImplicitHandler: `id_token` / `id_token token` are not driven by the history
+  --     driver (no code, nothing a later operation refers to); refused here so a generator slip shows.
+  HP.guard (!(matchesArgs q.responseTypes ["id_token"] || matchesArgs q.responseTypes ["token", "id_token"])) .unsupported_response_type
+  let acc5 ← authzHybrid cfg now minNonce client q acc3
+  let acc6 ← authzPKCE cfg client q acc5
+  return .authz acc6.code acc6.atk acc6.idt
+
+def authorizeProg (cfg : Config) (now : Time) (minNonce : Nat) (q : AuthzReq) : Prog Out :=
+  (authorizeH cfg now minNonce q).run
 
 end Fosite.Model
